@@ -511,3 +511,41 @@ pub fn query_event(store: &AnnotationStore, a: &Value, style: IdStyle) -> (Strin
         Err(_) => ("panic".into(), json!({"has": true, "ok": false, "rows": [], "base": []})),
     }
 }
+
+// ------------------------------------------------------------------------------------------ FindData event (C10)
+
+pub fn finddata_event(store: &AnnotationStore, a: &Value, style: IdStyle) -> (String, Value) {
+    let set = a["set"].as_str().unwrap_or("").to_string();
+    let key = a["key"].as_str().unwrap_or("").to_string();
+    let via = a["via"].as_str().unwrap_or("store").to_string();
+    let v: Val = serde_json::from_value(a["v"].clone()).expect("harness: value");
+    let op = dataoperator(a["op"].as_str().unwrap_or("="), &v, style);
+    let r = catch_unwind(AssertUnwindSafe(|| {
+        let it = |d: ResultItem<AnnotationData>| json!([d.set().handle().as_usize() + 1, d.handle().as_usize() + 1]);
+        let items: Vec<Value> = if via == "set" && !set.is_empty() {
+            match store.dataset(style.conc(&set).as_str()) {
+                Some(ds) => {
+                    if key.is_empty() {
+                        ds.find_data(false, op.clone()).map(it).collect()
+                    } else {
+                        ds.find_data(style.conc(&key).as_str(), op.clone()).map(it).collect()
+                    }
+                }
+                None => vec![],
+            }
+        } else {
+            let sc = style.conc(&set);
+            let kc = style.conc(&key);
+            match (set.is_empty(), key.is_empty()) {
+                (true, _) => store.find_data(false, false, op.clone()).map(it).collect(),
+                (false, true) => store.find_data(sc.as_str(), false, op.clone()).map(it).collect(),
+                (false, false) => store.find_data(sc.as_str(), kc.as_str(), op.clone()).map(it).collect(),
+            }
+        };
+        items
+    }));
+    match r {
+        Ok(items) => ("ok".into(), json!({"has": true, "items": items})),
+        Err(_) => ("panic".into(), json!({"has": true, "items": []})),
+    }
+}
